@@ -43,8 +43,12 @@ def tlc_histories(max_ops):
 def run(tier, seed):
     rnd = random.Random(1000 + seed)
     S = L.scenario
-    cfgs = {1: S("Maize", "SandyLoam", seed=seed + 1, irr={"method": 1, "kw": {"SMT": [60] * 4}}),
-            2: S("WheatGDD", "Clay", seed=seed + 2, regime="warm", gw={"water_table": "Y", "dates": ["2001/04/20"], "values": [1.2]}),
+    # configurations that share every "identity" a careless cache could key on (soil type name 'custom', crop name, object defaults)
+    # but differ in content; two of them have a shallow water table (capillary-rise parameters are derived per soil)
+    sandy = {"type": "custom", "kw": {"dz": [0.1] * 12}, "layers": [[1.2, 0.06, 0.13, 0.36, 3000.0, 100]]}
+    loamy = {"type": "custom", "kw": {"dz": [0.1] * 12}, "layers": [[1.2, 0.15, 0.31, 0.46, 500.0, 100]]}
+    cfgs = {1: S("Wheat", seed=seed + 1, soil_spec=sandy, gw={"water_table": "Y", "dates": ["2001/04/20"], "values": [2.0]}, irr={"method": 1, "kw": {"SMT": [60] * 4}}),
+            2: S("Wheat", seed=seed + 1, soil_spec=loamy, gw={"water_table": "Y", "dates": ["2001/04/20"], "values": [2.0]}, crop_kw={"Zmax": 1.0}),
             3: S("Tomato", "Default", seed=seed + 3, irr={"method": 3, "schedule": [["2001/05/05", 30], ["2001/06/01", 20]]}, crop_kw={"Zmax": 1.6})}
     hs, st = tlc_histories(6 if tier == "thorough" else 5)
     rnd.shuffle(hs)
